@@ -15,3 +15,6 @@ for bb, i in sorted(se.term_info.items()):
         print(bb, "call", i['name'], [show(a, maxdepth=5) for a in i['args']])
     elif i.get('k') == 'switch':
         print(bb, 'switch', show(i['discr'], maxdepth=6), i['targets'], i['otherwise'])
+if len(sys.argv) > 4 and sys.argv[4] == "mir":
+    import subprocess
+    subprocess.run([sys.executable, '/verif/analysis/pretty.py', p, sys.argv[2]])
